@@ -61,3 +61,102 @@ def c07CountOk (s : State) : Bool :=
 def settledB (s : State) : Bool := s.threads.all fun p => p.2.pc == .done
 
 end CentrifugeVerif.SubProto
+
+namespace CentrifugeVerif.SubProto
+
+/-! ### candidate inductive invariants for executions without wait-gate timeouts (Bool forms, checked by
+the bounded explorer on every reachable state before they are proved in `Proofs/`) -/
+
+def isSub (t : Thread) : Bool := t.kind == .csub || t.kind == .ssub
+def isUnsubLike (t : Thread) : Bool := t.kind == .cunsub || t.kind == .sunsub || t.kind == .close
+
+/-- the attempt holds its reservation in `c.channels` -/
+def holdPc : Pc → Bool
+  | .sOnSub | .sReadGen | .sCheck1 | .sHubAdd | .sCheck2 | .sPresAdd | .sReply | .sCommit => true
+  | _ => false
+
+/-- `cmdGen` is set -/
+def cmdPc : Pc → Bool
+  | .sCheck1 | .sHubAdd | .sCheck2 | .sPresAdd | .sReply | .sCommit => true
+  | _ => false
+
+/-- the unsubscribe has deleted its target entry and still cleans up -/
+def cleanupPc : Pc → Bool
+  | .uPresRm | .uLeave | .uHubRm => true
+  | _ => false
+
+def anyThread (s : State) (p : Thread → Bool) : Bool := s.threads.any fun q => p q.2
+
+/-- (A) every unsubscribed `c.channels` entry is the reservation of a live subscribe attempt -/
+def invA (s : State) : Bool :=
+  s.channels.all fun (ch, e) => e.subscribed ||
+    anyThread s fun t => isSub t && t.ch == ch && t.resGen == e.gen &&
+      (holdPc t.pc || t.pc == .sDeferPres || t.pc == .sErrDel)
+
+/-- (D) an attempt in its holding range finds its own reservation in `c.channels` -/
+def invD (s : State) : Bool :=
+  s.threads.all fun (_, t) => !(isSub t && holdPc t.pc) ||
+    (match aget s.channels t.ch with
+     | some e => e.gen == t.resGen && !e.subscribed && e.gate == some t.resGen && (!cmdPc t.pc || t.cmdGen == t.resGen)
+     | none => false)
+
+/-- who still owes the removal of hub entry `(ch, g)` -/
+def owes (t : Thread) (ch : Chan) (g : Gen) : Bool :=
+  t.ch == ch &&
+  ((isSub t && t.pc == .sRbHub && t.cmdGen == g) ||
+   (isSub t && (t.pc == .sErrHub || t.pc == .sDeferPres || t.pc == .sErrDel) && t.resGen == g) ||
+   (isUnsubLike t && cleanupPc t.pc && t.target == g))
+
+/-- (B) `gen_consistency` -/
+def invB (s : State) : Bool :=
+  s.hub.all fun (ch, g) =>
+    (match aget s.channels ch with | some e => e.gen == g | none => false) || anyThread s fun t => owes t ch g
+
+/-- (C) a subscribed entry has its routing entry -/
+def invC (s : State) : Bool :=
+  s.channels.all fun (ch, e) => !e.subscribed || aget s.hub ch == some e.gen
+
+def noEntryWithGen (s : State) (ch : Chan) (g : Gen) : Bool :=
+  match aget s.channels ch with | some e => e.gen != g | none => true
+
+/-- (H) generations whose entry was deleted by the thread stay dead -/
+def invH (s : State) : Bool :=
+  s.threads.all fun (_, t) =>
+    (!(isSub t && (t.pc == .sRbHub || t.pc == .sRbPres || t.pc == .sRbClose)) || noEntryWithGen s t.ch t.cmdGen) &&
+    (!(isSub t && (t.pc == .sErrHub || t.pc == .sErrClose || t.pc == .sErrOut)) || noEntryWithGen s t.ch t.resGen) &&
+    (!(isUnsubLike t && (cleanupPc t.pc || t.pc == .uOnUnsub)) || noEntryWithGen s t.ch t.target)
+
+/-- (F) an unsubscribe about to delete only ever matches a subscribed entry -/
+def invF (s : State) : Bool :=
+  s.threads.all fun (_, t) => !(isUnsubLike t && t.pc == .uRemove) ||
+    (match aget s.channels t.ch with | some e => e.gen != t.target || e.subscribed | none => true)
+
+/-- (G) a closed wait gate belongs to no reservation any more -/
+def invG (s : State) : Bool :=
+  s.channels.all fun (_, e) => e.subscribed || !(s.closedGates.contains e.gen)
+
+/-- (Q) after close every still subscribed channel is in the closing thread's work list -/
+def invQ (s : State) : Bool :=
+  s.status != .closed ||
+    (match s.connectMu with
+     | some c => (match aget s.threads c with
+        | some t => s.channels.all fun (ch, e) => !e.subscribed || t.pending.contains ch ||
+            (t.ch == ch && (t.pc == .uSnap || (t.pc == .uRemove && t.target == e.gen)))
+        | none => false)
+     | none => s.channels.all fun (_, e) => !e.subscribed)
+
+/-- (P) every presence entry has an owner: a subscribed entry with the presence flag, a subscribe attempt
+that added it and has not yet committed or rolled it back, or an unsubscribe about to remove it -/
+def invP (s : State) : Bool :=
+  s.presence.all fun ch =>
+    (match aget s.channels ch with | some e => e.subscribed && e.presence | none => false) ||
+    anyThread s fun t => t.ch == ch &&
+      ((isSub t && t.presAdded && (t.pc == .sReply || t.pc == .sCommit || t.pc == .sRbHub || t.pc == .sRbPres || t.pc == .sDeferPres)) ||
+       (isUnsubLike t && t.pc == .uPresRm) ||
+       (isUnsubLike t && t.pc == .uRemove && (match t.ctx with | some c => c.subscribed && c.presence | none => false)))
+
+def invAll (s : State) : List (String × Bool) :=
+  [("A", invA s), ("B", invB s), ("C", invC s), ("D", invD s), ("F", invF s), ("G", invG s), ("H", invH s),
+   ("P", invP s), ("Q", invQ s)]
+
+end CentrifugeVerif.SubProto
